@@ -81,3 +81,9 @@ add('C30','model_checking','exhaustive enumeration of single-field proof mutatio
 add('C33','model_checking','exhaustive enumeration of candidate populations x per-node eligibility states x session keys on the real NewSessionNodes, plus explicit-state BFS over real ABCI blocks with the dispatched session checked in every state',
  'Every assignment of {eligible, jailed, over the chain limit, other chain, gone} to n-1..n+3 candidates for n in 1..3 (5 thorough) and 6-16 session keys: same result twice, fails iff fewer than n eligible, exactly n distinct eligible nodes; the same oracle on the session dispatched by the real keeper in every chain state reached by a jail/unjail/edit/unstake menu.',
  'Population size <= 7; termination by 60 s watchdog; one application and chain on the real-keeper layer.')
+add('C27','model_checking','exhaustive enumeration of the (exponent grid x bin shape x multipliers x relay counts x bin-boundary stakes) domain on the real nodes keeper reward and burn functions',
+ 'All 101 exponents x 6-10 bin/ceiling shapes x 3-5 weight multipliers x 2-4 token multipliers x 5-8 relay counts x every stake around every bin boundary up to beyond the ceiling: each call terminates, is non-negative, monotone in stake and relays, and flat from the ceiling on.',
+ 'Finite grids for the multipliers/relays; termination by 30 s watchdog per call.')
+add('C26','model_checking','exhaustive enumeration of (allocation pair x stake-weight setting x multiplier x relay count x node x delegator map) on the real nodes keeper reward and fee-distribution code, with exact big-rational reference amounts',
+ 'Every combination of the finite grids: minted = computed reward = exact formula; fee part exact; operator/delegator/output shares exact per address; collected fees fully distributed with DAO and proposer parts adding up.',
+ 'Grids are finite (allocation pairs 36 quick / ~1000 thorough); fractional exponents compared with a float bound.')
